@@ -524,7 +524,11 @@ def check_interp(R, drv, tier):
             runs.append(("s", [n], "special"))
         for n1, n2 in ((0, 0), (1, 0), (0, 1), (1, 1)) + (((2, 1), (1, 2)) if tier != "quick" else ()):
             runs.append(("ses", [n1, n2], "special"))
+        budget = float(__import__("os").environ.get("VERIF_KERNEL_BUDGET_S", "0") or 0) or (2400.0 if tier == "thorough" else 1200.0)
         for shape, lens, alphabet in runs:
+            if time.time() - t0 > budget:
+                R.cov.setdefault("bounds", {})["K-interp-stopped"] = f"time budget of {budget:.0f} s reached before the run {shape} {lens} ({alphabet}); not explored in this run"
+                continue
             texts = [[z3.BitVec(f"ip{shape}{len(lens)}_{k}_{n}_c{i}", 32) for i in range(n)] for k, n in enumerate(lens)]
             dom = []
             for t in texts:
@@ -546,7 +550,11 @@ def check_interp(R, drv, tier):
             I.exits = []
             I.explore(st)
             keepI[:1] = [I]
-            for e in I.exits:
+            for k_exit, e in enumerate(I.exits):
+                if time.time() - t0 > budget:
+                    R.cov.setdefault("bounds", {})["K-interp-stopped"] = (f"time budget of {budget:.0f} s reached inside the run {shape} {lens} ({alphabet}): {k_exit} of {len(I.exits)} "
+                                                                           "printer paths were composed with the reader; the rest was not explored in this run")
+                    break
                 nprint += 1
                 v0 = e.value
                 if e.kind != "return" or not (isinstance(v0, SEnum) and v0.ty == "Option" and v0.disc == 1):
